@@ -1,9 +1,10 @@
 #!/venv/bin/python
-"""For every seeded change: run its target check against a scratch tree with the change applied and keep the shrunk
+"""usage: tools/harvest_corpus.py [name suffix, e.g. -c].  For every seeded change: run its target check against a scratch tree with the change applied and keep the shrunk
 failing case as a corpus entry (corpus/<pid>/<leg>-<seed name>.json).  Corpus cases run first on every check."""
 import json
 import os
 import subprocess
+import sys
 from pathlib import Path
 
 V = Path("/verif")
@@ -12,7 +13,7 @@ subprocess.run(f"git -C /repo worktree remove --force {repo}", shell=True, stder
 subprocess.run(f"git -C /repo worktree add -q --detach {repo} HEAD", shell=True, check=True)
 env = dict(os.environ, EDGEGRAPH_REPO=repo)
 try:
-    for sd in sorted(p for p in (V / "seeded").iterdir() if (p / "patch.diff").exists()):
+    for sd in sorted(p for p in (V / "seeded").iterdir() if (p / "patch.diff").exists() and (len(sys.argv) < 2 or p.name.endswith(sys.argv[1]))):
         pid = sd.name.split("-")[0]
         subprocess.run(f"git -C {repo} checkout -q -- . && git -C {repo} apply {sd / 'patch.diff'}", shell=True, check=True)
         p = subprocess.run(["./check", pid, "quick"], cwd=str(V), env=env, stdout=subprocess.PIPE, stderr=subprocess.STDOUT, text=True)
